@@ -1181,6 +1181,12 @@ func extractPathParams(path string, actualPath string) (map[string]string, error
 	if idx := strings.Index(actualPath, "?"); idx != -1 {
 		actualPathWithoutQuery = actualPath[:idx]
 	}
+	return extractPathParamsExact(path, actualPathWithoutQuery)
+}
+
+// extractPathParamsExact matches a path that carries no query string, so a
+// "?" inside a (decoded) segment is part of that segment.
+func extractPathParamsExact(path string, actualPathWithoutQuery string) (map[string]string, error) {
 
 	pathParts := strings.Split(strings.Trim(path, "/"), "/")
 	actualParts := strings.Split(strings.Trim(actualPathWithoutQuery, "/"), "/")
